@@ -35,3 +35,10 @@ Proof.
   exists new_rev. split; [exact H1|]. exact (toks_ok_dist W _ _ Hok).
 Qed.
 Print Assumptions C19_window.
+
+(* over whole histories: every token of every block refers back at most `window` bytes and never
+   before the start of the data, and the blocks stand for exactly the data written *)
+From Verif Require Import FinalSpec WriterTheorems.
+Theorem C19_history : C19_statement.
+Proof. exact WriterTheorems.C19_history. Qed.
+Print Assumptions C19_history.
